@@ -65,6 +65,8 @@ Same(r, a, b) == /\ r["threw" \o a] = r["threw" \o b] /\ r["it" \o a] = r["it" \
                  /\ r["res_lo" \o a] = r["res_lo" \o b] /\ r["res_hi" \o a] = r["res_hi" \o b]
                  /\ r["x_lo" \o a] = r["x_lo" \o b] /\ r["x_hi" \o a] = r["x_hi" \o b]
                  /\ r["px_lo" \o a] = r["px_lo" \o b] /\ r["px_hi" \o a] = r["px_hi" \o b]
+                 /\ r["bytes" \o a] = r["bytes" \o b]
+                 /\ r["txt_lo" \o a] = r["txt_lo" \o b] /\ r["txt_hi" \o a] = r["txt_hi" \o b]
 
 EnumClauses(r) ==
     LET wf == r.w \in WrapperIds
